@@ -117,6 +117,18 @@ int ops_core(int n, char **a) {
         printf(" %d %" PRIx64 " %d %" PRIx64 " 11\n", (int)e1, (uint64_t)o1, (int)e2, (uint64_t)o2);
         return 1;
     }
+    if (isop(op, "genfn5") && n == 6) {
+        H3Index h = pH(a[1]); int r = (int)pI(a[2]); int64_t o = (int64_t)pH(a[3]);
+        H3Error e = H3_EXPORT(cellToChildPos)(h, r, &o);
+        printf("ok %d %" PRIx64 "\n", (int)e, (uint64_t)o);
+        return 1;
+    }
+    if (isop(op, "genfn6") && n == 2) {
+        H3Index h = pH(a[1]);
+        printf("ok %d %d %d %d %d\n", H3_EXPORT(getResolution)(h), H3_EXPORT(getBaseCellNumber)(h), H3_EXPORT(isResClassIII)(h),
+               H3_EXPORT(pentagonCount)(), H3_EXPORT(res0CellCount)());
+        return 1;
+    }
     if (isop(op, "ispent") && n == 2) { printf("ok %d\n", H3_EXPORT(isPentagon)(pH(a[1]))); return 1; }
     if (isop(op, "parent") && n == 3) {
         H3Index out = 0; H3Error e = H3_EXPORT(cellToParent)(pH(a[1]), (int)pI(a[2]), &out);
